@@ -13,7 +13,10 @@ import (
 	_ "verifmc/checks/c09"
 	_ "verifmc/checks/c10val"
 	_ "verifmc/checks/c12"
+	_ "verifmc/checks/c14"
 	_ "verifmc/checks/c15"
 	_ "verifmc/checks/c16"
 	_ "verifmc/checks/c18"
+	_ "verifmc/checks/c19"
+	_ "verifmc/checks/c20"
 )
